@@ -1,37 +1,50 @@
 /-
   C08 — obligations about REGENERATED source facts (Generated/C08.lean is rewritten from the Go source on every run).
   They pin the places where one identifier decides an orchestration clause of the property and where a quick run
-  cannot always exhibit the consequence (a wrong new threshold only shows when a refresh LOWERS it and the new committee
-  then signs; a shared session id only shows with two or more inputs running real FROST rounds).
+  cannot always exhibit the consequence.
+
+  Every fact is an `Option`: `none` = the translator could not locate the anchor or does not understand its shape; the
+  obligation is then vacuous, bin/check prints `T-TIE-UNAVAILABLE`, and the correspondence ops (reshareparams, resharerun,
+  release2, btcsessions, the real signing runs) carry the clause alone. Facts are stated by ROLE — which value reaches
+  which argument — not by the names of locals, receivers or unexported fields.
 -/
 import SygmaModel.Model.C08
 import SygmaModel.Generated.C08
 namespace Sygma.C08
 
-/-- ecdsa `Resharing.Run` gives the library: old committee size and the OLD threshold of the start parameters, new
-    committee size and the process's own NEW threshold — the four fields of the model's `reshareParams`, in this order -/
-theorem gen_reshare_args :
-    Generated.C08.reshareArgs.drop 4 =
-      ["len(oldParties)", "startParams.OldThreshold", "len(newParties)", "r.newThreshold"] ∧
-    Generated.C08.reshareArgs.take 3 = ["tss.S256()", "oldCtx", "newCtx"] := by decide
+/-- ecdsa `Resharing.Run` gives the library: the size of the old committee built from the announced old subset, the
+    announced OLD threshold, the size of the new committee, and the process's own NEW threshold (the field its constructor
+    filled) — the four fields of the model's `reshareParams`, in this order -/
+theorem gen_reshare_roles : ∀ r, Generated.C08.reshareRoles = some r →
+    r = ["old-count", "announced-old-threshold", "new-count", "own-new-threshold"] := by
+  intro r hr
+  unfold Generated.C08.reshareRoles at hr
+  cases hr
+  all_goals decide
 
-/-- the constructor's threshold is what `r.newThreshold` holds (ecdsa, frost) and, for frost, what the refreshed
-    configuration handed to `RefreshTaproot` carries -/
-theorem gen_ctor_threshold :
-    "newThreshold: threshold" ∈ Generated.C08.ecdsaCtorThreshold ∧
-    "newThreshold: threshold" ∈ Generated.C08.frostCtorThreshold ∧
-    "key.Key.Threshold = threshold" ∈ Generated.C08.frostCtorThreshold ∧
-    Generated.C08.frostRefreshConfig = ["r.key.Key"] := by decide
+/-- frost: the constructor's threshold is written into the key configuration and kept by the process, and `Run` refreshes
+    with exactly that configuration -/
+theorem gen_frost_threshold : ∀ l, Generated.C08.frostThreshold = some l →
+    l = ["config-threshold-set", "stored-threshold-field-set", "refresh-uses-that-config"] := by
+  intro l hl
+  unfold Generated.C08.frostThreshold at hl
+  cases hl
+  all_goals decide
 
 /-- `Signing.Run` ASSIGNS the coordinator flag exactly once, unconditionally (the model's `SigningObj.run`) -/
-theorem gen_coordinator_assigned :
-    Generated.C08.coordinatorAssignments = ["s.coordinator = coordinator", "any:s.coordinator = coordinator"] := by decide
+theorem gen_coordinator_assigned : ∀ s, Generated.C08.coordinatorFlag = some s → s = "assigned-unconditionally-once" := by
+  intro s hs
+  unfold Generated.C08.coordinatorFlag at hs
+  cases hs
+  all_goals decide
 
-/-- inside the per-input loop of the BTC executor the session id is re-declared as the hex of THAT input's signing
-    hash, and `NewSigning` gets (input index, that hash, the resource's tweak, message id, that session id, …): the
-    model's `btcSignings` -/
-theorem gen_btc_sessions :
-    "sessionID := hex.EncodeToString(signingHash)" ∈ Generated.C08.btcLoopDecls ∧
-    Generated.C08.btcNewSigningArgs.take 5 = ["i", "signingHash", "resource.Tweak", "messageID", "sessionID"] := by decide
+/-- inside the per-input loop of the BTC executor `NewSigning` gets THAT input's signature hash as message, the
+    resource's tweak, and a session id declared in the loop as the hex of that hash: the model's `btcSignings` -/
+theorem gen_btc_sessions : ∀ l, Generated.C08.btcSession = some l →
+    l = ["msg=this-input's-signature-hash", "tweak=resource-tweak", "session=hex(msg),per-input"] := by
+  intro l hl
+  unfold Generated.C08.btcSession at hl
+  cases hl
+  all_goals decide
 
 end Sygma.C08
